@@ -1,15 +1,32 @@
 import beacon
 
 MANIFEST = dict(
-    text="On every recorded state of every generated chain (after each block, epoch boundary, upgrade and validator-adding deposit) the long-lived in-memory EpochsContext is compared, field by field, with what the Coq Spec computes from the state bytes alone (active sets and all committees of three epochs, proposers, effective balances, total active stake, sync-committee indices); continuing after serialize/reload is covered because every step is recomputed by the model from the pre-state bytes. Coq theorems: (Beacon/Proofs) the look-ahead stability facts that make once-per-epoch caching sound — frame lemmas for every sub-transition and operation, seeds / active sets / committees / proposers / stake invariant under block processing and in-epoch slot steps, the new previous/current shufflings at an epoch boundary are the old current/next ones; (Beacon/Impl/Epc.v + Refine/EpcRefine.v) an implementation model of zrnt's EpochsContext maintenance (NewEpochsContext, RotateEpochs, the deposit path extending pubkeys and effective balances, LoadSyncCommittees after the altair upgrade) with the invariant epc_matches proved to be established by a fresh context and preserved by blocks, slot steps, epoch rotation and upgrades, hence for every chain (epc_always_fresh) and across reload (reload_continue_same). Partial: the chain theorem is conditional on the C07 side conditions (proposer sampling within zrnt's 32000-candidate cap, non-empty active set) and explicit uint64 ranges at every rotated state; these are not shown to be invariants of reachable states.",
+    text="On every recorded state of every generated chain (after each block, epoch boundary, upgrade and validator-adding deposit) the long-lived in-memory EpochsContext is compared, field by field, with what the Coq Spec computes from the state bytes alone (active sets and all committees of three epochs, proposers, effective balances, total active stake, sync-committee indices); continuing after serialize/reload is covered because every step is recomputed by the model from the pre-state bytes. Coq theorems: (Beacon/Proofs) the look-ahead stability facts that make once-per-epoch caching sound — frame lemmas for every sub-transition and operation, seeds / active sets / committees / proposers / stake invariant under block processing and in-epoch slot steps, the new previous/current shufflings at an epoch boundary are the old current/next ones; (Beacon/Impl/Epc.v + Refine/EpcRefine.v) an implementation model of zrnt's EpochsContext maintenance (NewEpochsContext, RotateEpochs, the deposit path extending pubkeys and effective balances, LoadSyncCommittees after the altair upgrade) with the invariant epc_matches proved to be established by a fresh context and preserved by blocks, slot steps, epoch rotation and upgrades, hence for every chain (epc_always_fresh) and across reload (reload_continue_same). That implementation model is executed against Go on every run (Refine/EpcRun.v, extracted; one pass with the Spec's transition, proved to be exactly the drivers epc_process_slots / epc_state_transition): its context is carried along every honest live-context step of every chain (re-seeded by new_epochs_context at the first state and after each reload; Clone = sharing) and compared field by field, incl. the pubkey table, with Go's long-lived context (`epc-impl-live`), and its new_epochs_context with Go's NewEpochsContext (`epc-impl-fresh`). Partial: the chain theorem is conditional on the C07 side conditions (proposer sampling within zrnt's 32000-candidate cap, non-empty active set) and explicit uint64 ranges at every rotated state; these are not shown to be invariants of reachable states.",
     note="Trusted: Coq kernel; extraction + OCaml driver; pyspec transliteration; chain generator's context dump. No axioms.",
-    technique="Coq invariant proofs (look-ahead stability) + live-context vs extracted-Spec correspondence on generated chains",
+    technique="Coq invariant proofs (look-ahead stability, Impl maintenance invariant) + live-context vs extracted-Spec and vs extracted-Impl correspondence on generated chains",
     design="4/C08")
+
+
+def _impl(r):
+    # lines of the executed Impl model (Beacon/Impl/Epc.v): carried context vs Go's live dump, new_epochs_context vs Go's fresh dump.
+    # (a model failure that no `epc` record followed is printed with line 0, i.e. kind "?")
+    return r["detail"].startswith("epc-impl-live") or (r["kind"] == "epc" and r["detail"].startswith("epc-impl-fresh"))
+
+
+def select(r):
+    return (r["kind"] == "epc" and r["detail"].startswith("epc-live")) or _impl(r)
+
+
+def judge(r):
+    if r["ok"]:
+        return None
+    # Go differs from the Impl model: correspondence broken (code 1); Go differs from the Spec: a failing input (code 2)
+    return 1 if _impl(r) else 2
 
 
 def make_check():
     return beacon.BeaconCheck(
-        "C08", lambda r: r["kind"] == "epc" and r["detail"].startswith("epc-live"), beacon.judge_plain,
-        rule="every `epc` record: the live context that accompanied the state vs the Spec's view of the same state bytes. distinct = (chain, record)",
-        make_targets=["Properties/C08.vo", "Beacon/Run.vo"], trust=beacon.BEACON_TRUST,
-        model_files=["coq/Beacon/Run.v", "coq/Beacon/Spec/Helpers.v", "coq/Properties/C08.v"])
+        "C08", select, judge,
+        rule="every `epc` record: the live context that accompanied the state vs the Spec's view of the same state bytes (code 2); the same live dump vs the context the extracted Impl model carried along the honest live-context steps up to that state, and the NewEpochsContext dump vs the Impl model's new_epochs_context (epc-impl-live / epc-impl-fresh lines, code 1). distinct = (chain, record, line kind)",
+        make_targets=["Properties/C08.vo", "Beacon/Run.vo", "Beacon/Refine/EpcRun.vo"], trust=beacon.BEACON_TRUST,
+        model_files=["coq/Beacon/Run.v", "coq/Beacon/Spec/Helpers.v", "coq/Beacon/Impl/Epc.v", "coq/Beacon/Impl/Shuffling.v", "coq/Beacon/Refine/EpcRun.v", "coq/Properties/C08.v"])
